@@ -335,6 +335,10 @@ async fn run_admin(a: &Args, m: &mut mon::Mon) {
                     let db = storm::pick(&mut r, &dbs);
                     if ca != db {
                         if let Some(lev) = scen::setup_leveraged(&mut w, m, &mut r, g, s.liquidator, ca, db, 0.9).await {
+                            if a.prop == "C19" {
+                                let ru = w.accts[s.liquidator].user;
+                                ad.emissions_in_receivership(&mut w, m, &mut r, &lev, ru).await;
+                            }
                             if a.prop == "C12" {
                                 scen::whale_deleverage(&mut w, m, &mut r, g, s.liquidator, ca, db).await;
                                 scen::scale_price_any(&mut w, ca, 0.7).await;
@@ -346,6 +350,9 @@ async fn run_admin(a: &Args, m: &mut mon::Mon) {
                         }
                     }
                 }
+            }
+            if k % 120 == 90 && a.prop == "C19" {
+                admin::fee_wallet_rotation(&mut w, m, &mut r, g).await;
             }
             if k == 400 && a.prop == "C13" {
                 scen::wipeout(&mut w, m, &mut r, g, s.liquidator).await;
